@@ -590,7 +590,11 @@ Theorem fc_result_ext b :
     (* any character predicate that holds of "0" and of every placed value holds of the result *)
     (forall P : N -> bool, P c0 = true ->
        (forall k, In k components -> range_is_empty (rng k) = false -> forallb P (V2 K k) = true) ->
-       forallb P b = true).
+       forallb P b = true) /\
+    (* positions that belong to no component keep the zero filler *)
+    (forall q, range_in L q = true ->
+       (forall k, In k components -> range_is_empty (rng k) = true \/ disjoint (rng k) q = true) ->
+       get_slice b (fst q) (Some (snd q)) = get_slice (zeros (Z.to_nat L)) (fst q) (Some (snd q))).
 Proof using All.
   intros H HK. unfold from_components, get_spec in H. rewrite Er in H. cbn [bind] in H.
   destruct (r_positions r) as [ps|] eqn:Eps; [|discriminate]. cbv zeta in H.
@@ -637,10 +641,25 @@ Proof using All.
     + (* (k, V2 K k) is an item *)
       rewrite <- Hkeys in Hk. apply in_map_iff in Hk as ([k' v] & Ek & Hin). cbn [fst] in Ek. subst k'.
       destruct (Hitem _ Hin) as [_ Hv]. cbn [fst snd] in Hv. rewrite <- Hv. exact Hin.
-  - intros P P0 HP. apply (fold_pred components r P items _ Hok); [|exact Hz|].
-    + intros kv Hin. destruct (Hitem kv Hin) as [Hc Hv]. destruct (range_is_empty (rng (fst kv))) eqn:Ee; [left; exact Ee|right].
-      rewrite Hv. exact (HP _ Hc Ee).
-    + apply zeros_pred. exact P0.
+  - split.
+    + intros P P0 HP. apply (fold_pred components r P items _ Hok); [|exact Hz|].
+      * intros kv Hin. destruct (Hitem kv Hin) as [Hc Hv]. destruct (range_is_empty (rng (fst kv))) eqn:Ee; [left; exact Ee|right].
+        rewrite Hv. exact (HP _ Hc Ee).
+      * apply zeros_pred. exact P0.
+    + intros q Hq Hdis. unfold fc_place.
+      assert (Hgen : forall its acc, (forall kv, In kv its -> item_ok components r kv) -> len acc = L ->
+                (forall kv, In kv its -> range_is_empty (rng (fst kv)) = true \/ disjoint (rng (fst kv)) q = true) ->
+                get_slice (fold_left (fc_step components r) its acc) (fst q) (Some (snd q)) = get_slice acc (fst q) (Some (snd q))).
+      { induction its as [|kv its IH]; intros acc Hok' Ha Hd'; [reflexivity|]. cbn [fold_left].
+        assert (Hkv : item_ok components r kv) by (apply Hok'; left; reflexivity).
+        rewrite IH.
+        - destruct (Hd' kv (or_introl eq_refl)) as [He|Hdj].
+          + unfold fc_step. fold rng. rewrite He. reflexivity.
+          + apply (step_other components r acc kv q Hkv Ha Hq Hdj).
+        - intros; apply Hok'; right; assumption.
+        - apply step_len; assumption.
+        - intros; apply Hd'; right; assumption. }
+      apply Hgen; [exact Hok|exact Hz|]. intros kv Hin. destruct (Hitem kv Hin) as [Hc _]. exact (Hdis _ Hc).
 Qed.
 
 Theorem fc_result b :
@@ -652,7 +671,7 @@ Theorem fc_result b :
     forall k, In k components -> range_is_empty (rng k) = false ->
       get_slice b (fst (rng k)) (Some (snd (rng k))) = V2 K k /\ len (V2 K k) = wd k.
 Proof using All.
-  intros H HK. destruct (fc_result_ext b H HK) as (K & A1 & A2 & A3 & A4 & A5 & _).
+  intros H HK. destruct (fc_result_ext b H HK) as (K & A1 & A2 & A3 & A4 & A5 & _ & _).
   exists K. split; [exact A1|]. split; [exact A2|]. split; [exact A3|]. split; [exact A4|exact A5].
 Qed.
 
@@ -789,11 +808,11 @@ Proof.
   - rewrite Z.sub_0_r. reflexivity.
 Qed.
 
-Theorem V1_conf :
+Theorem V1_conf_checked :
   (len (V1 k_bank) <= wd k_bank)%Z -> (len (V1 k_branch) <= wd k_branch)%Z -> (len (V1 k_account) <= wd k_account)%Z ->
   fc_check components r values comps1 = Ok tt ->
   forall k, In k components ->
-    matches_structure r (rng k) (V1 k) = Ok true \/ V1 k = zeros (Z.to_nat (wd k)).
+    matches_structure r (rng k) (V1 k) = Ok true \/ (checked_key k = false /\ V1 k = zeros (Z.to_nat (wd k))).
 Proof using All.
   intros GB GR GA Hchk k Hk.
   destruct lay_facts as (_ & _ & _ & Hnodup & Hb & Hbr & Hac & _).
@@ -801,7 +820,7 @@ Proof using All.
   { pose proof comps1_keys as Hkeys. rewrite <- Hkeys in Hk. apply in_map_iff in Hk as ([k' v] & Ek & Hin). cbn [fst] in Ek. subst k'.
     assert (Ev : V1 k = v) by (unfold V1; apply in_get_val; [rewrite Hkeys; exact Hnodup|exact Hin]).
     rewrite Ev. exact Hin. }
-  destruct (checked_key k) eqn:Eck; [left; exact (fc_check_ok comps1 Hchk k (V1 k) Hin Eck)|right].
+  destruct (checked_key k) eqn:Eck; [left; exact (fc_check_ok comps1 Hchk k (V1 k) Hin Eck)|right]. split; [reflexivity|].
   unfold checked_key in Eck. repeat (apply orb_false_iff in Eck as [Eck ?]).
   assert (Hempty : get_val k values = []) by (destruct (get_val k values); [reflexivity|discriminate]).
   assert (Hk' : In k components) by (rewrite <- comps1_keys; apply (in_map fst _ _ Hin)).
@@ -810,6 +829,15 @@ Proof using All.
     - rewrite (V1_split k Hs Hk'). rewrite Eck. match goal with X : text_eqb k k_branch = false |- _ => rewrite X end. reflexivity.
     - apply (V1_nosplit k Hs Hk'). }
   rewrite EV. unfold G. rewrite Hempty. change (clean e []) with (@nil N). apply zfill_empty. apply wd_nonneg. exact Hk'.
+Qed.
+
+Theorem V1_conf :
+  (len (V1 k_bank) <= wd k_bank)%Z -> (len (V1 k_branch) <= wd k_branch)%Z -> (len (V1 k_account) <= wd k_account)%Z ->
+  fc_check components r values comps1 = Ok tt ->
+  forall k, In k components ->
+    matches_structure r (rng k) (V1 k) = Ok true \/ V1 k = zeros (Z.to_nat (wd k)).
+Proof using All.
+  intros GB GR GA Hchk k Hk. destruct (V1_conf_checked GB GR GA Hchk k Hk) as [H|[_ H]]; [left|right]; exact H.
 Qed.
 
 (* ---- the error class of an over-long component ------------------------------------------------------------- *)
